@@ -24,7 +24,7 @@ def mc(d, **kw):
 def simc(d, depth, **kw):
     return ("SimSpec", dict(d, Record="TRUE", D=str(depth), WindAt=str(depth - 14), **kw), "INVARIANTS DumpSched", "SimCore")
 def wit(d, **kw):
-    return ("Spec", dict(d, Marking="TRUE", Target='"@TARGET@"', **kw), "VIEW view\nINVARIANTS WitnessInv", "WitCore")
+    return ("Spec", dict(d, Marking="TRUE", Target='"@TARGET@"', DeathOK="@DEATHOK@", **kw), "VIEW view\nINVARIANTS WitnessInv", "WitCore")
 def rep(d, **kw):
     return ("RSpec", dict(d, Record="TRUE", **kw), "INVARIANTS DumpSched", "ReplayCore")
 
@@ -59,7 +59,7 @@ CFGS = {
     "WitLifeC": wit(LIFE, MaxNotify="1", MaxEnds="0", MaxSaves="1", MaxAcks="1", Hold="TRUE"),
     "WitLifeC2": wit(LIFE, MaxNotify="0", MaxEnds="0", MaxSaves="1", MaxAcks="2", MaxSeq="2", NVB="1"),
     "WitLifeS": wit(LIFE, MaxNotify="1", MaxEnds="0", MaxSaves="0", MaxAcks="1", MaxSeq="1", AllowClose="FALSE", AutoCkpt="FALSE"),
-    "WitLifeB": wit(LIFE, NVB="1", MaxNotify="0", MaxEnds="1", MaxSaves="0", MaxAcks="2", MaxSeq="2", AllowClose="FALSE", AutoCkpt="FALSE",
+    "WitLifeB": wit(LIFE, NVB="1", MaxNotify="0", MaxEnds="1", MaxSaves="0", MaxAcks="2", MaxSeq="3", AllowClose="FALSE", AutoCkpt="FALSE",
                     EndCauses='{"statechanged"}'),
     "WitLifeA": wit(LIFE, MaxNotify="1", MaxEnds="1", MaxSaves="0", MaxAcks="2", MaxSeq="2", AllowClose="FALSE", AutoCkpt="FALSE",
                     EndCauses='{"statechanged"}'),
@@ -73,7 +73,7 @@ CFGS = {
     "WitReplayLife1": rep(LIFE, NVB="1", MaxSeq="3", MaxSaves="5", MaxAcks="5", MaxNotify="5", MaxEnds="6", Hold="TRUE"),
     "WitReplayLife": rep(LIFE, MaxSeq="3", MaxSaves="5", MaxAcks="5", MaxNotify="5", MaxEnds="6", Hold="TRUE"),
     # ---- start-up faults ------------------------------------------------------------------------------------
-    "MCMetricQ": mc(LIFE, Scrapes="TRUE", MaxNotify="1", MaxEnds="1", MaxSaves="0", MaxAcks="1", MaxSeq="1", Hold="TRUE", AllowClose="FALSE", AutoCkpt="FALSE"),
+    "MCMetricQ": mc(LIFE, Scrapes="TRUE", MaxNotify="1", MaxEnds="0", MaxSaves="0", MaxAcks="1", MaxSeq="1", Hold="TRUE", AllowClose="FALSE", AutoCkpt="FALSE"),
     "MCMetric": mc(LIFE, Scrapes="TRUE", MaxNotify="1", MaxEnds="1", MaxSaves="1", MaxAcks="2", MaxSeq="2", Hold="TRUE",
                    Kinds='{"mut", "del", "exp", "sys"}', Keys='{"user", "conn"}'),
     "SimMetric": simc(LIFE, 55, Scrapes="TRUE", MaxNotify="2", MaxEnds="2", MaxSaves="2", MaxAcks="3", MaxSeq="3", Hold="TRUE",
